@@ -274,6 +274,47 @@ def r08_3(ctx: Ctx) -> None:
         raise AnalysisError(f"record.py: expected at least 2 bisection-bounded windows, found {count}")
 
 
+def r08_6(ctx: Ctx) -> None:
+    """ early exits of the lookup over the start-sorted gene list: stopping is sound only on a quantity that bounds the
+        sort key - `gene.start >= query.end` going forward, `gene.start <= query.start - (longest gene)` going back.
+        Stopping on 'this gene does not match' is a heuristic: a non-matching gene can stand between the current position
+        and a gene that does match (nested and overrunning genes; a long gene starting before a short one) """
+    from ..flow import path_facts
+    qual = "Record.get_cds_features_within_location"
+    func = ctx.fn(REC, qual)
+    cfg = CFG(func)
+    scans = [n for n in walk_local(func) if isinstance(n, ast.While) and any(isinstance(b, ast.Break) for b in walk_local(n))]
+    count = 0
+    for loop in scans:
+        for brk in [b for b in walk_local(loop) if isinstance(b, ast.Break)]:
+            count += 1
+            facts = [(e, t) for e, t in path_facts(cfg, brk) if any(a is loop for a in _anc(e))]
+            bound = [e for e, t in facts if isinstance(e, ast.Compare) and ".start" in txt(e) and ".end" in txt(e)
+                     and not any(isinstance(x, ast.Call) for x in ast.walk(e))]
+            ctx.ob("R08.6", REC, brk, qual, "forward scan stops", bool(bound),
+                   "the scan over the start-sorted genes ends only at a gene that starts beyond the end of the query",
+                   detail="" if bound else "ends at the first gene that is neither a result nor followed by a gene nested in it: with "
+                   "genes [6:10) [6:23) [6:26) [8:19) the query [5:20) returns [6:10) only and misses [8:19)",
+                   form=" and ".join(("" if t else "not ") + txt(e)[:60] for e, t in facts)[:200])
+    helper = ctx.fn(REC, qual + ".find_start_in_list")
+    backs = [n for n in walk_local(helper) if isinstance(n, ast.While) and "overlaps_with" in txt(n.test)]
+    bounded = [n for n in walk_local(helper) if isinstance(n, ast.While) and "overlaps_with" not in txt(n.test)
+               and any(isinstance(x, ast.Compare) and ".start" in txt(x) for x in ast.walk(n.test)) and "longest" in txt(n.test) + txt(helper)]
+    for loop in backs:
+        count += 1
+        ctx.ob("R08.6", REC, loop, qual + ".find_start_in_list", "backward walk stops", False,
+               "the walk back to the first gene that may overlap the query ends only where no earlier gene can reach it",
+               detail="ends at the first gene that does not overlap: with genes [0:500) [100:150) the overlapping query [300:400) "
+               "returns nothing (the short gene hides the long one); a gene spanning the origin is never reached from far away",
+               form=txt(loop.test)[:120])
+    for loop in bounded:
+        count += 1
+        ctx.ob("R08.6", REC, loop, qual + ".find_start_in_list", "backward walk stops", True,
+               "the walk back is bounded by the length of the longest gene", form=txt(loop.test)[:120])
+    if count < 2:
+        raise AnalysisError(f"{qual}: the scan loops of the lookup were not found")
+
+
 def r08_5(ctx: Ctx) -> None:
     """ a bisection window over the record's sorted list of regions: a region that spans the origin sorts first (its
         comparison key is negative), but the genes of its pre-origin part sort after every other region - the window
@@ -362,3 +403,5 @@ def run(ctx: Ctx) -> None:
     r08_4(ctx)
     ctx.rule("R08.5", "bisection windows over the sorted regions also reach an origin-spanning first region", floor=1)
     r08_5(ctx)
+    ctx.rule("R08.6", "the gene lookup stops scanning only on a bound of the sort key", floor=2)
+    r08_6(ctx)
